@@ -28,14 +28,14 @@ pub mod c04;
 pub mod c05;
 pub mod c06;
 pub mod c07;
-stub_property!(c08, C08, "C08");
+pub mod c08;
 pub mod c09;
 pub mod c10;
 pub mod c11;
 pub mod c12;
 pub mod c13;
 stub_property!(c14, C14, "C14");
-stub_property!(c15, C15, "C15");
+pub mod c15;
 pub mod c16;
 pub mod c17;
 stub_property!(c18, C18, "C18");
